@@ -152,7 +152,7 @@ impl SerialPort for SerDev {
     // what has arrived so far: the bytes in front of the next 'no data yet' / error answer
     fn bytes_to_read(&self) -> Result<u32> {
         let mut s = self.0.lock().unwrap();
-        let n = s.rx.iter().take_while(|t| **t < 256).count() as u32;
+        let n = s.rx.iter().take(4096).take_while(|t| **t < 256).count() as u32;      // 'at least 4096' is reported as 4096 (keeps a poll O(1) on long scripts)
         // nothing has arrived and the script's next answer is 'no data yet': asking counts as that answer (time passes), as a read would
         if n == 0 { if let Some(256) | Some(259) | Some(262) = s.rx.front().cloned() { s.rx.pop_front(); } }
         Ok(n)
